@@ -32,9 +32,35 @@ def run(tier: str, rep: Report, prefixes=("P12.",), pid=PID):
                               "Mutate applied to any live object of the right kind, starting from a code object and a layout variant")
     rep.sample({"history": hs[len(hs) // 2]})
     fails = df.validate(rep, files, "Trace_Api")
+    # the JSON codec on every constant kind at every position (strings with lone surrogates included):
+    # argument purity, repeatability and aliasing are recorded by the C07 worker and judged by Trace_Json
+    import c07
+    from common import SUPPORTED, Pool, chunks
+
+    terms = c07.model_terms(rep, wd, 1)
+    if tier == "quick":
+        terms = [t for k, t in enumerate(terms) if t[1][0] in ("atom", "complex") or k % 5 == 0]
+    pool = Pool(SUPPORTED, per_version=4)
+    jfiles = []
+    try:
+        args = {}
+        k = 0
+        for v in SUPPORTED:
+            args[v] = []
+            for ch in chunks(terms, 40):
+                k += 1
+                f = str(wd / f"terms-{v}-{k}.ndjson")
+                jfiles.append(f)
+                args[v].append({"terms": ch, "path": f})
+        res = pool.map_all("jsonw.terms_to_file", args)
+    finally:
+        pool.close()
+    c07.vt_pass(jfiles)
+    rep.cov["json_codec_documents_probed_for_purity"] = sum(sum(x) for x in res.values())
+    fails += df.validate(rep, jfiles, "Trace_Json", expect_delta=0)
 
     def keyfn(evid, clauses):
         parts = evid.split(":")
-        return f"{pid}/{'+'.join(sorted(set(c.split('.')[1] for c in clauses)))}/ver{parts[1]}"
+        return f"{pid}/{'+'.join(sorted(set(c.split('.')[1] for c in clauses)))}/{parts[0]}/ver{parts[1]}"
 
     df.classify(rep, fails, prefixes, pid, keyfn)
